@@ -1,0 +1,19 @@
+//go:build verif
+// +build verif
+
+package state
+
+// Hook for the verification harness under /verif (build tag "verif" only): every operation of the context
+// registry is reported while the registry's mutex is held - For after its result is known, CancelOlderThan and
+// Shutdown before they cancel anything - so that the reported order is the order in which the operations took effect.
+var VerifCtxHook func(w *ViewContexts, op string, h uint64, v uint64, res string)
+
+func verifCtxOp(w *ViewContexts, op string, hv *HeightView, res string) {
+	if f := VerifCtxHook; f != nil {
+		if hv == nil {
+			f(w, op, 0, 0, res)
+			return
+		}
+		f(w, op, uint64(hv.Height()), uint64(hv.View()), res)
+	}
+}
